@@ -9,27 +9,29 @@ for d in sorted(glob.glob('/verif/seeded/*/')):
     sid = os.path.basename(d.rstrip('/'))
     if only and sid not in only: continue
     meta = json.load(open(d + 'meta.json'))
-    prop = meta['property']
-    p = subprocess.run(['/verif/tools/mutant.sh', d + 'patch.diff', prop, tier], capture_output=True, text=True, env=dict(os.environ, TAILN='6'))
-    out = p.stdout + p.stderr
-    if 'PATCH-DOES-NOT-APPLY' in out:
-        verdict = 'patch does not apply to HEAD'
-    elif 'VIOLATION' in out or 'violation(s)' in out:
-        verdict = 'caught'
-    elif 'INCONCLUSIVE' in out:
-        verdict = 'inconclusive'
-    elif 'held on' in out:
-        verdict = 'MISSED'
-    else:
-        verdict = 'error'
-    m = re.search(r'by class: map\[(.*?)\]', out)
-    classes = m.group(1) if m else ''
     head = subprocess.run(['git', '-C', '/repo', 'rev-parse', '--short', 'HEAD'], capture_output=True, text=True).stdout.strip()
-    meta['checks_run'] = [r for r in meta.get('checks_run', []) if not (r.get('check') == prop and r.get('tier') == tier)]
-    meta['checks_run'].append({"check": prop, "tier": tier, "tree": f"/repo {head} + patch (scratch worktree)", "verdict": verdict, "violation_classes": classes})
-    json.dump(meta, open(d + 'meta.json', 'w'), indent=1)
-    rows.append((sid, prop, verdict, classes, meta.get('summary') or ''))
-    print(sid, verdict, classes, flush=True)
+    # run_checks: the checks to run for this seed (default: the check of its own property; a seed whose
+    # effect lies in another property's domain names that property's check as well)
+    for prop in meta.get('run_checks', [meta['property']]):
+        p = subprocess.run(['/verif/tools/mutant.sh', d + 'patch.diff', prop, tier], capture_output=True, text=True, env=dict(os.environ, TAILN='6'))
+        out = p.stdout + p.stderr
+        if 'PATCH-DOES-NOT-APPLY' in out:
+            verdict = 'patch does not apply to HEAD'
+        elif 'VIOLATION' in out or 'violation(s)' in out:
+            verdict = 'caught'
+        elif 'INCONCLUSIVE' in out:
+            verdict = 'inconclusive'
+        elif 'held on' in out:
+            verdict = 'MISSED'
+        else:
+            verdict = 'error'
+        m = re.search(r'by class: map\[(.*?)\]', out)
+        classes = m.group(1) if m else ''
+        meta['checks_run'] = [r for r in meta.get('checks_run', []) if not (r.get('check') == prop and r.get('tier') == tier)]
+        meta['checks_run'].append({"check": prop, "tier": tier, "tree": f"/repo {head} + patch (scratch worktree)", "verdict": verdict, "violation_classes": classes})
+        json.dump(meta, open(d + 'meta.json', 'w'), indent=1)
+        rows.append((sid, prop, verdict, classes, meta.get('summary') or ''))
+        print(sid, verdict, prop, classes, flush=True)
 
 # ---- SENSITIVITY.md from all meta.json files
 lines = ["# Sensitivity: independently seeded changes vs the checks", "",
@@ -41,7 +43,7 @@ for d in sorted(glob.glob('/verif/seeded/*/')):
     sid = os.path.basename(d.rstrip('/'))
     m = json.load(open(d + 'meta.json'))
     runs = m.get('checks_run', [])
-    v = '; '.join(f"{r['verdict']} ({r['tier']})" for r in runs) or 'not run'
+    v = '; '.join(f"{r['verdict']} ({r['check']} {r['tier']})" for r in runs) or 'not run'
     cl = '; '.join(r.get('violation_classes', '') for r in runs)[:160]
     def cell(x): return (x or '').replace('|', '/').replace('\n', ' ')[:420]
     lines.append(f"| {sid} | {m['property']} | {v} | {cl} | {cell(m.get('summary'))} | {cell(m.get('needs_to_manifest'))} |")
